@@ -249,6 +249,10 @@ def run(rep, tier):
             reps.append((f, b, t))
             rep.ob("R1", "%s: `%s` is not stored twice in a row" % (f.qualname, t[:70]), False, f.site(b), "identical to the statement before it: the entry that was meant to be set is left unset", key="tables/repeated-store/%s/%s" % (f.qualname, t[:70]))
     rep.ob("R1", "no subscript/attribute store is repeated verbatim in consecutive statements", not reps, "", "", key="tables/repeated-store/none")
+    from .. import sides
+    sides.check(prog, rep, "R1", lambda f: f.module.rel in ("hypnotoad/cases/tokamak.py", "hypnotoad/cases/torpex.py") or
+                (f.module.rel == "hypnotoad/core/mesh.py" and f.qualname not in ("MeshRegion.addPointAtWallToContours", "_find_intersection", "MeshRegion.calcPenaltyMask")),
+                "topology tables and mesh assembly (cases/*.py, core/mesh.py)")
     r3(prog, rep)
     r5_r6(prog, rep, topos)
     y_group_origin(prog, rep, "R7")
